@@ -42,6 +42,18 @@ def degenerate_queries(rng, wj, sph):
                 continue
             for t in (0.5, 0.25, 1e-9, 1 - 1e-9):
                 at(("on trench chord" if line else "polygon edge"), c[0] + t * (n[0] - c[0]), c[1] + t * (n[1] - c[1]), rng.choice(depths))
+        if line and len(cs) >= 2:
+            # a hair beyond either end of the trench: the foot of the point on the trench curve lies a rounding error outside the
+            # first / last section (the closest-point search accepts section fractions in [-1e-8, 1 + 1e-8]), also next to the
+            # line through the end, at the surface and at depth
+            for (e0, e1) in ((cs[-1], cs[-2]), (cs[0], cs[1])):
+                tx, ty = e0[0] - e1[0], e0[1] - e1[1]
+                L = math.hypot(tx, ty) or 1.0
+                for rel in (1e-16, 3e-16, 1e-13, 1e-11, 1e-9, 5e-9):
+                    for side in (0.0, 1.0, -3.0):
+                        px, py = e0[0] + tx * rel - ty / L * side * (1.0 if sph else 1e4), e0[1] + ty * rel + tx / L * side * (1.0 if sph else 1e4)
+                        at("a hair beyond the end of the trench", px, py, rng.choice([0.0, lo, lo + 2e4, lo + 0.5 * total]))
+                at("a hair beyond the end of the trench", math.nextafter(e0[0], e0[0] + tx), math.nextafter(e0[1], e0[1] + ty), lo + 1e4)
         if line and len(cs) == 2:
             # slab tip of a straight trench: end of the planar chain, on the dip side
             th = math.radians(segs[0]["angle"][0])
